@@ -12,9 +12,36 @@ def _strip(f, o):
     return o
 
 
+def _stepped(f, o):
+    """(initial pointer operand, header block) when o is a pointer that a loop advances by one element per iteration: phi(init, gep(phi, 1))"""
+    if o[0] != "i":
+        return None
+    p = f.insts[o[1]]
+    if p.op != "phi" or len(p.ops) != 2:
+        return None
+    init = None
+    step = False
+    for x in p.ops:
+        d = f.insts[x[1]] if x[0] == "i" else None
+        if d is not None and d.op == "getelementptr" and len(d.ops) == 2 and d.ops[0] == ["i", p.id] and d.ops[1][0] == "c" and d.ops[1][1] == 1:
+            step = True
+        else:
+            init = x
+    return (init, p.block.idx) if step and init is not None else None
+
+
 def _hole_index(m, f, o):
     """index X if o is &<load of GeoPolygon.holes>[X]"""
     if o[0] != "i":
+        return None
+    st = _stepped(f, o)
+    if st is not None:
+        # `hole++` from polygon->holes: element number = iteration number of that loop
+        ld = f.insts[st[0][1]] if st[0][0] == "i" else None
+        if ld is not None and ld.op == "load":
+            base, path = ir.field_path(m, f, ld.ops[0])
+            if path and path[-1][0] == "f" and path[-1][1] == "GeoPolygon" and path[-1][2] == "holes":
+                return ["iter", st[1], 0]
         return None
     g = f.insts[o[1]]
     while g.op == "bitcast" and g.ops[0][0] == "i":
@@ -36,6 +63,13 @@ def _bbox_index(m, f, o):
         return ["c", 0, 64]
     if o[0] != "i":
         return None
+    st = _stepped(f, o)
+    if st is not None:
+        # `box++` from &bboxes[c]: element number = iteration number + c
+        y0 = _bbox_index(m, f, st[0]) if st[0][0] == "i" else (["c", 0, 64] if st[0][0] == "a" and f.args[st[0][1]]["type"] == "%struct.BBox*" else None)
+        if y0 is not None and y0[0] == "c":
+            return ["iter", st[1], ir.cint_signed(y0)]
+        return None
     g = f.insts[o[1]]
     if g.op != "getelementptr" or g.d.get("srcty") != "%struct.BBox" or len(g.ops) != 2:
         return None
@@ -45,6 +79,13 @@ def _bbox_index(m, f, o):
     while b[0] == "i" and f.insts[b[1]].op == "getelementptr" and f.insts[b[1]].d.get("srcty") == "%struct.BBox" and len(f.insts[b[1]].ops) == 2:
         terms.append(_strip(f, f.insts[b[1]].ops[1]))
         b = f.insts[b[1]].ops[0]
+    # the innermost base may itself be a pointer that the loop steps (`box = phi(bboxes, box + 1)`, used as box + 1): iteration number + constants
+    sb = _stepped(f, b) if b[0] == "i" else None
+    if sb is not None and all(t[0] == "c" for t in terms):
+        y0 = _bbox_index(m, f, sb[0]) if sb[0][0] == "i" else (["c", 0, 64] if sb[0][0] == "a" and f.args[sb[0][1]]["type"] == "%struct.BBox*" else None)
+        if y0 is not None and y0[0] == "c":
+            return ["iter", sb[1], ir.cint_signed(y0) + sum(ir.cint_signed(t) for t in terms)]
+        return None
     return terms[0] if len(terms) == 1 else ["sum", terms]
 
 
@@ -68,6 +109,8 @@ def check(ctx, m, cfg, rule="R-SIB"):
             inst = {"function": i.src_fn, "callee": i.callee, "at": i.where(), "config": cfg}
             # both subscripts as (symbolic base, constant offset): Y = X + 1 whatever the base (i and i+1, h-1 and h, ...)
             def lin(o, depth=0):
+                if o[0] == "iter":
+                    return (("iter", o[1]), o[2])           # pointers stepped in lockstep by the same loop
                 o = _strip(f, o)
                 if o[0] == "c":
                     return (None, ir.cint_signed(o))
